@@ -246,3 +246,58 @@ Proof.
     + rewrite Hend, J5. lia.
 Qed.
 Print Assumptions exhausted_run.
+
+(* ---------- NAME bytes ---------- *)
+Lemma le_bytes8_le_of v : le_bytes 8 v = name_bytes v.
+Proof.
+  unfold le_bytes, name_bytes. cbn [seq map le_of]. 
+  repeat (f_equal; [try (rewrite !Z.div_div by lia; reflexivity); try (rewrite Z.div_1_r; reflexivity)|]).
+  reflexivity.
+Qed.
+Lemma le_val_le_of k : forall v, 0 <= v -> le_val (le_of k v) = v mod 256 ^ Z.of_nat k.
+Proof.
+  induction k as [|k IH]; intros v Hv.
+  - cbn. now rewrite Z.mod_1_r.
+  - cbn [le_of le_val]. rewrite IH by (apply Z.div_pos; lia). rewrite Nat2Z.inj_succ, Z.pow_succ_r by lia.
+    rewrite Z.rem_mul_r by lia. lia.
+Qed.
+Lemma name_bytes_length v : length (name_bytes v) = 8%nat.
+Proof. reflexivity. Qed.
+Lemma le_val_name v : 0 <= v < 2^64 -> le_val (firstn 8 (name_bytes v)) = v.
+Proof. intros Hv. change (firstn 8 (name_bytes v)) with (le_of 8 v). rewrite le_val_le_of by lia. apply Z.mod_small. change (256 ^ Z.of_nat 8) with (2^64). exact Hv. Qed.
+Lemma of_le8_le_val l : of_le8 l = le_val (firstn 8 l).
+Proof. unfold of_le8. induction (firstn 8 l) as [|b r IH]; cbn; [reflexivity|]. now rewrite IH. Qed.
+Lemma of_le8_name v : 0 <= v < 2^64 -> of_le8 (name_bytes v) = v.
+Proof. intros Hv. rewrite of_le8_le_val. apply le_val_name; exact Hv. Qed.
+
+(* ---------- operations that leave addresses and NAMEs alone ---------- *)
+Definition tweak (n n':node) : Prop :=
+  n_w64 n' = n_w64 n /\ n_mode n' = n_mode n /\ n_open n' = n_open n /\ n_now n' = n_now n /\ n_pgn n' = n_pgn n /\ n_addr_changed n' = n_addr_changed n /\
+  dev_count n' = dev_count n /\
+  forall j, d_src (get_dev n' j) = d_src (get_dev n j) /\ d_name (get_dev n' j) = d_name (get_dev n j) /\ (dev_ok (get_dev n j) -> dev_ok (get_dev n' j)).
+Lemma tweak_refl n : tweak n n.
+Proof. unfold tweak. repeat split; auto. Qed.
+Lemma tweak_trans a b c : tweak a b -> tweak b c -> tweak a c.
+Proof.
+  intros (A1&A2&A3&A4&A5&A6&A7&A8) (B1&B2&B3&B4&B5&B6&B7&B8). unfold tweak.
+  repeat split; try congruence; destruct (A8 j) as (X1&X2&X3), (B8 j) as (Y1&Y2&Y3); try congruence. intros Hd. apply Y3, X3, Hd.
+Qed.
+Lemma tweak_upd_q n q d : tweak n (upd_q n q d).
+Proof. unfold tweak, upd_q, dev_count, get_dev. cbn. repeat split; auto. Qed.
+Lemma tweak_upd_dev n i d' : 0 <= i ->
+  d_src d' = d_src (get_dev n i) -> d_name d' = d_name (get_dev n i) -> (dev_ok (get_dev n i) -> dev_ok d') -> tweak n (upd_dev n i d').
+Proof.
+  intros Hi E1 E2 E3. unfold tweak. rewrite dev_count_upd. repeat split; try reflexivity;
+    (destruct (Z.eq_dec j i) as [->|Hji];
+     [destruct (Z_lt_le_dec i (dev_count n)) as [Hlt|Hge];
+      [rewrite get_upd_same by lia; auto
+      |unfold get_dev, upd_dev, znth, zset; cbn [n_devs]; rewrite !nth_overflow by (rewrite ?set_nth_length; unfold dev_count in Hge; lia); auto]
+     |destruct (Z_lt_le_dec j 0) as [Hneg|Hnn];
+      [unfold get_dev, upd_dev, znth, zset; cbn [n_devs]; destruct j; try lia; cbn [Z.to_nat]; destruct (Z.to_nat i) eqn:Ei; [lia|]; destruct (n_devs n); auto
+      |rewrite get_upd_other by lia; auto]]).
+Qed.
+Lemma dev_ok_claim_end d : dev_ok d -> dev_ok {| d_src := d_src d; d_name := d_name d; d_claim_end := claim_end_of (d_src d); d_claim_timer := d_claim_timer d; d_tx := d_tx d;
+     d_cells := d_cells d; d_tp_msg := d_tp_msg d; d_next_dt_time := d_next_dt_time d; d_next_dt_seq := d_next_dt_seq d; d_has_pending := d_has_pending d |}.
+Proof.
+  intros [[[A B]|A] C]; split; cbn; auto. left. split; [exact A|]. unfold claim_end_of. change c_N2kMaxCanBusAddress with 251. destruct (Z.gtb_spec (d_src d) 0); lia.
+Qed.
